@@ -200,6 +200,8 @@ class WorldGen(object):
         if k.custom_types or k.custom_keywords:
             self.custom = {"types": ["even", "nonempty"] if k.custom_types else [],
                            "keywords": ["x-marker", "x-each", "x-also"] if k.custom_keywords else [],
+                           # an EXISTING keyword replaced by a stricter one (stock errors plus one of its own)
+                           "override": rng.choice([None, "properties", "items", "minLength"]),
                            "variant": k.variant}
         self.formats = None
         if k.formats:
